@@ -154,9 +154,19 @@ pub open spec fn bc_end(s: Seq<char>, i: nat, d: nat) -> Option<nat>
 }
 
 // ---------------------------------------------------------------- numbers
-/// the numeric value of the literal text fits the 64-bit range of the reference (strtoll/strtoull);
-/// uninterpreted: linked to the code only through the assumed contract of `interpret_number`.
-pub uninterp spec fn num_ok(text: Seq<char>) -> bool;
+/// the literal's value fits 64 bits: 0x/0b literals as unsigned 64-bit, negative decimals as i64,
+/// other decimals as unsigned 64-bit (digit-string values dec_val / radix_val are those of Rust's std parsers)
+pub open spec fn num_ok(text: Seq<char>) -> bool {
+    if has_prefix(text, seq!['0', 'x']) {
+        let v = radix_val(text.subrange(2, text.len() as int), 16); v is Some && 0 <= v.unwrap() <= u64::MAX
+    } else if has_prefix(text, seq!['0', 'b']) {
+        let v = radix_val(text.subrange(2, text.len() as int), 2); v is Some && 0 <= v.unwrap() <= u64::MAX
+    } else if text.len() > 0 && text[0] == '-' {
+        dec_val(text) is Some && i64::MIN <= dec_val(text).unwrap() <= i64::MAX
+    } else {
+        dec_val(text) is Some && 0 <= dec_val(text).unwrap() <= u64::MAX
+    }
+}
 
 pub open spec fn ref_number(s: Seq<char>, i: nat) -> Option<(TokenKind, nat)>
     recommends i < s.len()
